@@ -110,6 +110,11 @@ def searchAnswer {σ} (A : Automaton σ) (m : Assoc Nat) (d : Dict Nat) (lo hi :
   let spec := specItems m (fun k => matchLo lo k && matchHi hi k && A.accepts k)
   s!"{digest spec}~{digest (d.search A lo hi)}~{digest (d.searchDelta A lo hi)}"
 
+def searchLimAnswer {σ} (A : Automaton σ) (wam : Bool) (m : Assoc Nat) (d : Dict Nat) (lo hi : Bound)
+    (limit : Option Nat) : String :=
+  let spec := specItems m (fun k => matchLo lo k && matchHi hi k && A.accepts k)
+  s!"{digest spec}~{streamDigest (d.searchLim A wam lo hi limit)}"
+
 /-- one operation on spec `m` and block model `d` -/
 def answer (tables : Array (Table × Nat)) (m : Assoc Nat) (d : Dict Nat) (op : String) : String :=
   match op.splitOn ":" with
@@ -177,6 +182,12 @@ def answer (tables : Array (Table × Nat)) (m : Assoc Nat) (d : Dict Nat) (op : 
       let b := prefixBounds p
       s!"{digest spec}~{streamDigest (d.stream b.1 b.2 lim)}"
     | _, _ => "bad-op"
+  | ["autl", a, lo, hi, lim, w] =>
+    match parseAut tables a, parseBound lo, parseBound hi, parseLimit lim with
+    | some (.pfx p), some lo, some hi, some lim => searchLimAnswer (prefixAutomaton p) (w == "1") m d lo hi lim
+    | some (.lev dist q), some lo, some hi, some lim => searchLimAnswer (levAutomaton q dist) (w == "1") m d lo hi lim
+    | some (.tab t s), some lo, some hi, some lim => searchLimAnswer (tableAutomaton t s) (w == "1") m d lo hi lim
+    | _, _, _, _ => "bad-op"
   | ["aut", a, lo, hi] =>
     match parseAut tables a, parseBound lo, parseBound hi with
     | some (.pfx p), some lo, some hi => searchAnswer (prefixAutomaton p) m d lo hi
